@@ -181,6 +181,8 @@ def run(ctx):
                 continue
             n += 1
             chain, verdict = consumption(f, s)
+            if verdict is None:
+                verdict = none_passed_on(f, s)
             ctx.ob('C04.3', f, 'cache-result:' + s.name, verdict is None,
                    '%s result is consumed by %s%s' % (s.name, ' > '.join(chain) or 'match', '' if verdict is None else ' — ' + verdict), line=s.line)
     ctx.floor('C04.3', 'cache-read calls in ContinuityStore', n, 15)
@@ -310,6 +312,51 @@ def reads_locals_args(f, site):
     for a in site.args:
         out |= reads_locals(f, a)
     return out
+
+
+def none_passed_on(f, site):
+    """the Ok payload of a matched cache read (an Option) handed on whole — returned or stored without ever being tested:
+    the cache's `Ok(None)` ("I have nothing") becomes the answer "there is none"."""
+    D = site.dest['l']
+    for (bi, si, how, payload) in f.uses(D):
+        if how != 'stmt':
+            continue
+        rv = payload.get('rv') or {}
+        if rv.get('k') != 'use':
+            continue
+        pl = op_place(rv['a'][0]) or {}
+        pr = pl.get('p', [])
+        if pl.get('l') != D or not pr or not (isinstance(pr[0], dict) and pr[0].get('dc') == 'Ok'):
+            continue
+        X = payload['d']['l']
+        if not re.match(r'^core::option::Option<', f.lty(X) or ''):
+            continue
+        tested = False
+        work, seen_ = [X], set()
+        flows_out = False
+        while work:
+            l = work.pop()
+            if l in seen_:
+                continue
+            seen_.add(l)
+            for (b2, s2, how2, pay2) in f.uses(l):
+                if how2 == 'switch':
+                    tested = True
+                elif how2 == 'stmt':
+                    r2 = pay2.get('rv') or {}
+                    if r2.get('k') == 'discr':
+                        tested = True
+                    elif r2.get('k') in ('use', 'ref') and not (pay2['d'].get('p')):
+                        work.append(pay2['d']['l'])
+                    elif r2.get('k') == 'agg' and r2.get('variant') == 'Ok':
+                        flows_out = True
+                elif isinstance(how2, str) and how2.startswith('arg'):
+                    s3 = Site(f, b2, pay2)
+                    if s3.name in ('is_some', 'is_none', 'map', 'and_then', 'ok_or', 'ok_or_else', 'unwrap_or', 'unwrap_or_else', 'unwrap_or_default', 'filter', 'or_else', 'or', 'as_ref', 'as_deref', 'is_some_and'):
+                        tested = True
+        if flows_out and not tested:
+            return 'the Ok payload (an Option) is handed on as the answer without being tested: the cache\'s Ok(None) — "I hold nothing" — becomes "there is none" and truth is never asked'
+    return None
 
 
 def consumption(f, site):
